@@ -165,3 +165,37 @@ Proof. exact g_read_str2_safe. Qed.
 Theorem C10_gen_check_protocol_id : forall pid,
   g_ttheader_checkProtocolID (Z.of_N pid) = Ok gnil <-> In (Z.of_N pid) ttheader_checkProtocolID_cases.
 Proof. exact g_check_protocol_id. Qed.
+
+(* ---- phase 2 of the translator: the WHOLE decoder regenerated from the Go source — readKVInfo,
+        readIntKVInfo, readStrKVInfo, readACLToken (loops on fuel over the info bytes, *int index
+        threaded, Go maps as association lists) and Decode over an abstract bufiox.Reader — is
+        proved equal to the hand model (Proofs/GenEquivTTH2.v), so C10's headline theorems hold of
+        the regenerated definitions for EVERY fuel above the input length ([er]: the reader's
+        error code when the stream is too short) ---- *)
+From GV Require Import Proofs.GenEquivTTH2 Proofs.GenCorollariesTTH2.
+
+Theorem C10_gen_decode_total : forall er b fuel,
+  wf b -> glen_ok b -> (length b < fuel)%nat ->
+  match g_decode er fuel b with
+  | Ok (st, _, _, _, _, _, _, _, _) =>
+    snd st <= N.min (len b) (L_meta + declared b) /\ fst st = drop (snd st) b
+  | Err _ | Panic _ | OOB => False
+  end.
+Proof. exact g_decode_total. Qed.
+
+Theorem C10_gen_decode_ok_iff : forall er b fuel,
+  wf b -> glen_ok b -> (length b < fuel)%nat ->
+  ((exists st fl sq pid im sm hl pl, g_decode er fuel b = Ok (st, fl, sq, pid, im, sm, hl, pl, gnil)) <-> accepts b).
+Proof. exact g_decode_ok_iff. Qed.
+
+Theorem C10_gen_sections_parse : forall secs fuel buf idx,
+  wf buf -> glen_ok buf -> idx <= len buf -> (length buf < fuel)%nat ->
+  secs_ok secs -> drop idx buf = enc_secs secs ->
+  g_ttheader_readKVInfo fuel (Z.of_N idx) buf = Ok (kvemb (ointerp secs), gnil).
+Proof. exact g_sections_parse. Qed.
+
+Theorem C10_gen_sections_only : forall fuel buf idx r,
+  wf buf -> glen_ok buf -> idx <= len buf -> (length buf < fuel)%nat ->
+  g_ttheader_readKVInfo fuel (Z.of_N idx) buf = Ok (r, gnil) ->
+  exists secs, secs_ok secs /\ drop idx buf = enc_secs secs /\ r = kvemb (ointerp secs).
+Proof. exact g_sections_only. Qed.
